@@ -380,6 +380,12 @@ func c14Judge(c *vk.Ctx, cs *c14Case, res *vk.ChildResult) {
 	for _, b := range out.ReaderBad {
 		c.Violate("reader-wrong-under-fault", fmt.Sprintf("%s fault (%s) at operation %d: %s", cs.Op, cs.Mode, cs.FaultAt, b), wit)
 	}
+	for _, e := range out.Events {
+		if e.Op == "mark" && e.Tag == "write-error-swallowed" {
+			c.Violate("write-error-not-reported", fmt.Sprintf("a Write into %s failed with the injected error after %d bytes, yet the item writer and Directory.Persist reported success for the truncated file (%s fault, %s, operation %d)", mon.FileName(e.Kind, e.ID), e.N, cs.Op, cs.Mode, cs.FaultAt), wit)
+			break
+		}
+	}
 	// surfacing
 	bgFault := false
 	for _, f := range out.Fired {
